@@ -45,6 +45,15 @@ func capitalizeName(name string) string {
 	return name
 }
 
+// tagReadError reports a failed read at a tag position; io.EOF is reserved
+// for the end marker 'Z', so a stream that ends early is an unexpected EOF.
+func tagReadError(err error) error {
+	if err == io.EOF {
+		return io.ErrUnexpectedEOF
+	}
+	return err
+}
+
 func getTag(reader ByteRuneReader, flag int32) (byte, error) {
 	if flag != _tagRead {
 		return byte(flag), nil
